@@ -190,9 +190,32 @@ static void do_rsa(void) {
 		vh_end();
 	}
 	if (!rsa_ok) return;
-	reseed(vh_tok[2]);
 	k = bn_size_bin(rpub->crt->n);
 	mlen = vh_hex2bytes(vh_tok[3], msg, MAXB, NULL);
+	if (strncmp(vh_tok[2], "hunt", 4) == 0) {
+		/* INPUT SELECTION: hunt<class>:<tries>:<base seed> - try encryption seeds until the encoded message (recovered
+		 * with the private exponent) has a zero byte at the position of the class: 1 = first byte of the masked seed,
+		 * 2 = first byte of the masked data block (the bytes that vanish from a digit-wise view of the integer); the
+		 * case then proceeds with that seed exactly like an ordinary one (the events below are judged as usual) */
+		static char sbuf[96]; static uint8_t tc[MAXB], em[MAXB];
+		int cls = vh_tok[2][4] - '0', tries = atoi(vh_tok[2] + 6), t, found = 0;
+		const char *base = strchr(vh_tok[2] + 6, ':'); size_t pos = (cls == 1) ? 1 : 1 + RLC_MD_LEN;
+		bn_t c; bn_null(c); bn_new(c);
+		base = base ? base + 1 : "00";
+		for (t = 0; t < tries && !found; t++) {
+			size_t cl = sizeof(tc); volatile int e2 = 0, r2 = RLC_ERR;
+			snprintf(sbuf, sizeof(sbuf), "%s%04x", base, t);
+			reseed(sbuf);
+			VH_TRY(e2, r2 = cp_rsa_enc(tc, &cl, msg, mlen, rpub));
+			if (e2 || r2 != RLC_OK) break;
+			VH_TRY(e2, (bn_read_bin(c, tc, cl), bn_mxp(c, c, rprv->d, rprv->crt->n), bn_write_bin(em, k, c)));
+			if (!e2 && pos < k && em[pos] == 0) found = 1;
+		}
+		(void)vh_code();
+		bn_free(c);
+		vh_tok[2] = sbuf;
+	}
+	reseed(vh_tok[2]);
 	cap = (size_t)atol(vh_tok[4]);
 	b.in = msg; b.len = mlen;
 	cap_start();
